@@ -1,17 +1,23 @@
 import CookModel.Lemmas.ClosingKeeps
+import CookModel.Lemmas.ClosingFold
 /-
-  The events the pull parser emits satisfy `EvOK`: the two facts with content are
-  `closing_parseModifiersLoop_keeps` (intermediate data is only set at an `&` token, whose REF flag
-  is inserted or was already there) and `closing_timerP_keeps` (the timer parser recovers a
-  quantity when name and quantity are both missing); everything else is the frame property of
-  `Lemmas/ClosingKeeps.lean` (events are only appended).
+  What the pull parser's event streams look like:
+  * every event is `EvOK'` (`pullEvents_evOK'`): `closing_parseModifiersLoop_keeps` (intermediate
+    data is only set at an `&` token, whose REF flag is inserted or was already there; its value is a
+    parsed natural number) and `closing_timerP_keeps` (the timer parser recovers a quantity when name
+    and quantity are both missing);
+  * the stream is `WellBracketed` (`pullEvents_wellBracketed`): a block contributes diagnostics and
+    then one metadata/section event, or nothing, or `start k`, content, `stop k`, with only text
+    inside a text block;
+  * the metadata-only parser emits front matter, metadata and diagnostics only.
+  Everything else is the frame property of `Lemmas/ClosingKeeps.lean` (events are only appended).
 -/
 set_option linter.unusedSectionVars false
 set_option linter.unusedVariables false
 set_option linter.unusedSimpArgs false
 namespace Cook
 
-variable {α : Type} [Arith α]
+variable {α : Type} [Arith α] {I : Array (Ev α) → Prop} [DiagStable I]
 
 /-! ### modifiers: intermediate data only together with REF -/
 
@@ -34,12 +40,31 @@ theorem closing_insert_mono (m : Modifiers) (f g : Nat) (h : m.contains g = true
 
 theorem closing_modifierFlag_and : modifierFlag .and = some Modifiers.REF := by decide
 
+/-- `parse_intermediate_ref_data`: the value is a parsed natural number -/
+theorem closing_parseInterRef_keeps (toks : List Tok) :
+    Keeps I (parseInterRef (α := α) toks) (fun r => ∀ d, r.1 = some d → 0 ≤ d.val.val) := by
+  unfold parseInterRef
+  keeps
+  all_goals (
+    refine Keeps.pure ?_
+    intro d hd
+    first
+      | (cases hd; done)
+      | (simp only [Option.some.injEq] at hd; subst hd; exact Int.natCast_nonneg _))
+
+/-- what `parse_modifiers` guarantees about the intermediate data: only together with REF, and
+    non-negative -/
+def InterOK (m : Modifiers) (d : Option (Loc InterData)) : Prop :=
+  (d.isSome = true → m.contains Modifiers.REF = true) ∧ ∀ x, d = some x → 0 ≤ x.val.val
+
+theorem InterOK.none (m : Modifiers) : InterOK m Option.none :=
+  ⟨fun h => (by cases h), fun x h => (by cases h)⟩
+
 /-- `parse_modifiers`' loop: the intermediate data is only (re)assigned at an `&` token, whose flag REF
     is then inserted — or, in the duplicate-modifier branch, already there -/
 theorem closing_parseModifiersLoop_keeps (span : Span) (ie : Bool) (fuel : Nat) (mtoks : List Tok)
-    (m : Modifiers) (d : Option (Loc InterData)) (hd : d.isSome = true → m.contains Modifiers.REF = true) :
-    Keeps (parseModifiersLoop (α := α) span ie fuel mtoks m d)
-      (fun r => r.2.isSome = true → r.1.contains Modifiers.REF = true) := by
+    (m : Modifiers) (d : Option (Loc InterData)) (hd : InterOK m d) :
+    Keeps I (parseModifiersLoop (α := α) span ie fuel mtoks m d) (fun r => InterOK r.1 r.2) := by
   induction fuel generalizing mtoks m d with
   | zero => unfold parseModifiersLoop; exact Keeps.pure hd
   | succ fuel ih =>
@@ -57,21 +82,22 @@ theorem closing_parseModifiersLoop_keeps (span : Span) (ie : Bool) (fuel : Nat) 
       -- the rest of the loop, whatever remains after the optional reference
       have tail : ∀ (rest' : List Tok) (d' : Option (Loc InterData)),
           (d'.isSome = true → m.contains Modifiers.REF = true ∨ flag = Modifiers.REF) →
-          Keeps (if (decide (flag ≠ 0) && m.contains flag) = true then do
+          (∀ x, d' = some x → 0 ≤ x.val.val) →
+          Keeps I (if (decide (flag ≠ 0) && m.contains flag) = true then do
                 perr "duplicate-modifier" [span]
                 parseModifiersLoop (α := α) span ie fuel rest' m d'
               else parseModifiersLoop span ie fuel rest' (m.insert flag) d')
-            (fun r => r.2.isSome = true → r.1.contains Modifiers.REF = true) := by
-        intro rest' d' hd'
+            (fun r => InterOK r.1 r.2) := by
+        intro rest' d' hd' hnn
         split
         · rename_i hc
           simp only [Bool.and_eq_true] at hc
-          refine Keeps.bind (Keeps.perr _ _) (fun _ _ => ih rest' m d' ?_)
+          refine Keeps.bind (Keeps.perr _ _) (fun _ _ => ih rest' m d' ⟨?_, hnn⟩)
           intro hs
           rcases hd' hs with h1 | h1
           · exact h1
           · rw [← h1]; exact hc.2
-        · refine ih rest' (m.insert flag) d' ?_
+        · refine ih rest' (m.insert flag) d' ⟨?_, hnn⟩
           intro hs
           rcases hd' hs with h1 | h1
           · exact closing_insert_mono m flag _ h1
@@ -84,139 +110,53 @@ theorem closing_parseModifiersLoop_keeps (span : Span) (ie : Bool) (fuel : Nat) 
           rcases hflag with h1 | h1
           · exact (Option.some.inj h1).symm
           · cases h1
-        refine Keeps.bind (parseInterRef_keeps rest) (fun r _ => ?_)
-        exact tail r.2 r.1 (fun _ => Or.inr hf)
-      · exact tail rest d (fun hs => Or.inl (hd hs))
+        refine Keeps.bind (closing_parseInterRef_keeps rest) (fun r hr => ?_)
+        exact tail r.2 r.1 (fun _ => Or.inr hf) hr
+      · exact tail rest d (fun hs => Or.inl (hd.1 hs)) hd.2
 
 theorem closing_parseModifiers_keeps (mtoks : List Tok) (pos : Nat) :
-    Keeps (parseModifiers (α := α) mtoks pos)
-      (fun r => r.inter.isSome = true → r.flags.val.contains Modifiers.REF = true) := by
+    Keeps I (parseModifiers (α := α) mtoks pos) (fun r => InterOK r.flags.val r.inter) := by
   unfold parseModifiers
   split
-  · exact Keeps.pure (fun h => by cases h)
+  · exact Keeps.pure (InterOK.none _)
   dsimp only
   refine Keeps.bind (hasExt_keeps _) (fun ie _ => ?_)
-  refine Keeps.bind (closing_parseModifiersLoop_keeps _ _ _ _ _ _ (fun h => by cases h)) (fun r hr => ?_)
+  refine Keeps.bind (closing_parseModifiersLoop_keeps _ _ _ _ _ _ (InterOK.none _)) (fun r hr => ?_)
   exact Keeps.pure hr
 
 macro_rules | `(tactic| keeps_leaf) => `(tactic| with_reducible exact closing_parseModifiers_keeps ..)
 
+/-! ### the three components -/
+
+/-- a component parser result: the event, if any, is an `EvOK'` component event -/
+def RComp (r : Option (Ev α)) : Prop := ∀ ev, r = some ev → EvOK' ev ∧ (evSpan ev).isSome = true
+
+theorem RComp.none : RComp (α := α) Option.none := fun ev h => by cases h
+theorem RComp.some {ev : Ev α} (h : EvOK' ev) (hc : (evSpan ev).isSome = true) : RComp (Option.some ev) :=
+  fun ev' h' => by cases h'; exact ⟨h, hc⟩
+
+macro_rules | `(tactic| keeps_leaf) => `(tactic| ((with_reducible refine Keeps.pure ?_) <;> exact RComp.none))
+
 /-- `ingredient`: the event carries intermediate data only together with REF -/
-theorem closing_ingredientP_keeps : Keeps (ingredientP (α := α)) ROK := by
+theorem closing_ingredientP_keeps : Keeps I (ingredientP (α := α)) RComp := by
   unfold ingredientP
   keeps
   rename_i hpm _ _
-  exact Keeps.pure (ROK.some hpm)
+  exact Keeps.pure (RComp.some ⟨hpm.1, hpm.2⟩ rfl)
 
-theorem closing_cookwareP_keeps : Keeps (cookwareP (α := α)) ROK := by
+theorem closing_cookwareP_keeps : Keeps I (cookwareP (α := α)) RComp := by
   unfold cookwareP
   keeps
+  all_goals exact Keeps.pure (RComp.some trivial rfl)
 
 /-- `timer`: the event has a name or a quantity (a quantity is recovered when both are missing) -/
-theorem closing_timerP_keeps : Keeps (timerP (α := α)) ROK := by
+theorem closing_timerP_keeps : Keeps I (timerP (α := α)) RComp := by
   unfold timerP
   keeps
-  all_goals (refine Keeps.pure (ROK.some ?_); simp only [EvOK]; simp_all [Option.isSome_iff_ne_none])
-
-/-! ### steps, blocks, the pull parser -/
+  all_goals (refine Keeps.pure (RComp.some ?_ rfl); simp only [EvOK']; simp_all [Option.isSome_iff_ne_none])
 
 macro_rules | `(tactic| keeps_leaf) => `(tactic| with_reducible exact closing_ingredientP_keeps)
 macro_rules | `(tactic| keeps_leaf) => `(tactic| with_reducible exact closing_cookwareP_keeps)
 macro_rules | `(tactic| keeps_leaf) => `(tactic| with_reducible exact closing_timerP_keeps)
-
-theorem closing_stepOne_keeps : Keeps (stepOne (α := α)) (fun _ => True) := by
-  unfold stepOne
-  apply Keeps.bind (R := ROK)
-  · keeps
-  · intro comp hc
-    split
-    · rename_i ev
-      exact Keeps.pushEv (hc ev rfl)
-    · keeps
-macro_rules | `(tactic| keeps_leaf) => `(tactic| with_reducible exact closing_stepOne_keeps)
-
-theorem closing_stepLoop_keeps (fuel : Nat) : Keeps (stepLoop (α := α) fuel) (fun _ => True) := by
-  induction fuel with
-  | zero => unfold stepLoop; keeps
-  | succ fuel ih => unfold stepLoop; keeps
-macro_rules | `(tactic| keeps_leaf) => `(tactic| with_reducible exact closing_stepLoop_keeps ..)
-
-theorem closing_parseStep_keeps : Keeps (parseStep (α := α)) (fun _ => True) := by
-  unfold parseStep; keeps
-macro_rules | `(tactic| keeps_leaf) => `(tactic| with_reducible exact closing_parseStep_keeps)
-
-theorem closing_textBlockLoop_keeps (fuel : Nat) : Keeps (textBlockLoop (α := α) fuel) (fun _ => True) := by
-  induction fuel with
-  | zero => unfold textBlockLoop; keeps
-  | succ fuel ih => unfold textBlockLoop; keeps
-macro_rules | `(tactic| keeps_leaf) => `(tactic| with_reducible exact closing_textBlockLoop_keeps ..)
-
-theorem closing_parseTextBlock_keeps : Keeps (parseTextBlock (α := α)) (fun _ => True) := by
-  unfold parseTextBlock; keeps
-macro_rules | `(tactic| keeps_leaf) => `(tactic| with_reducible exact closing_parseTextBlock_keeps)
-
-theorem closing_sectionP_keeps : Keeps (sectionP (α := α)) ROK := by
-  unfold sectionP; keeps
-macro_rules | `(tactic| keeps_leaf) => `(tactic| with_reducible exact closing_sectionP_keeps)
-
-theorem closing_metadataEntry_keeps : Keeps (metadataEntry (α := α)) ROK := by
-  unfold metadataEntry; keeps
-macro_rules | `(tactic| keeps_leaf) => `(tactic| with_reducible exact closing_metadataEntry_keeps)
-
-theorem closing_parseMultilineBlock_keeps : Keeps (parseMultilineBlock (α := α)) (fun _ => True) := by
-  unfold parseMultilineBlock; keeps
-macro_rules | `(tactic| keeps_leaf) => `(tactic| with_reducible exact closing_parseMultilineBlock_keeps)
-
-theorem closing_parseBlock_keeps (oldStyle : Bool) : Keeps (parseBlock (α := α) oldStyle) (fun _ => True) := by
-  unfold parseBlock
-  apply Keeps.bind (R := ROK)
-  · keeps
-  · intro r hr
-    split
-    · rename_i ev
-      exact Keeps.pushEv (hr ev rfl)
-    · keeps
-
-
-/-- one block: the queue stays all-`EvOK` -/
-theorem closing_runBlock_allOK (cs : CharSpec) (ext : Ext) (oldStyle : Bool) (b : List Tok)
-    (evs : Array (Ev α)) (panic : Option String) (h : AllOK evs) :
-    AllOK (runBlock cs ext oldStyle b evs panic).1 := by
-  have key : Keeps (do
-      if b.isEmpty then panicWith "BlockParser::new: empty tokens"
-      parseBlock (α := α) oldStyle
-      let s ← get
-      if s.cur ≠ s.toks.length then panicWith "Block tokens not parsed") (fun _ => True) := by
-    have := closing_parseBlock_keeps (α := α) oldStyle
-    keeps
-  exact (key.run ⟨b, 0, ext, cs, evs, panic⟩ h).1
-
-theorem closing_foldl_runBlock_allOK (cs : CharSpec) (ext : Ext) (oldStyle : Bool) (blocks : List (List Tok))
-    (acc : Array (Ev α) × Option String) (h : AllOK acc.1) :
-    AllOK (blocks.foldl (fun acc b => runBlock (α := α) cs ext oldStyle b acc.1 acc.2) acc).1 := by
-  induction blocks generalizing acc with
-  | nil => exact h
-  | cons b bs ih =>
-    rw [List.foldl_cons]
-    exact ih _ (closing_runBlock_allOK cs ext oldStyle b acc.1 acc.2 h)
-
-/-- **every event of the pull parser is `EvOK`**: an ingredient event with intermediate data carries
-    REF, a timer event has a name or a quantity -/
-theorem pullEvents_evOK (cs : CharSpec) (ext : Ext) (input : List Char) :
-    ∀ ev ∈ (pullEvents (α := α) cs ext input).1.toList, EvOK ev := by
-  unfold pullEvents
-  split
-  rename_i toks evs0 oldStyle heq
-  apply closing_foldl_runBlock_allOK
-  split at heq
-  · simp only [Prod.mk.injEq] at heq
-    rw [← heq.2.1]
-    intro ev hev
-    simp only [List.mem_singleton] at hev
-    subst hev; trivial
-  · simp only [Prod.mk.injEq] at heq
-    rw [← heq.2.1]
-    intro ev hev
-    simp at hev
 
 end Cook
